@@ -1,0 +1,33 @@
+//go:build verif
+
+// Contracts for this plugin, checked by /verif/govc (comment-only file).
+
+package nbp
+
+//@ global opt59 written-by setup6
+//@ global opt60 written-by setup6
+//@ global opt66 written-by setup4
+//@ global opt67 written-by setup4
+//@ plugin-invariant (opt59 != nil ==> code6(opt59) == 59) && (opt60 != nil ==> code6(opt60) == 60)
+//@ plugin-invariant (opt66 != nil ==> (optcode(opt66.Code) == 66 && ser4(*opt66))) && (opt67 != nil ==> (optcode(opt67.Code) == 67 && ser4(*opt67)))
+
+//@ func nbpHandler4
+//@   implements handler.Handler4
+//@   modifies everything
+//@   ensures ret0 == resp && ret1
+//@   ensures[C17:tftp-server-when-requested] (opt67 != nil && opt66 != nil && requested4(req.Options, 66)) ==> (has(resp.Options, 66) && resp.Options[66] == optenc(*opt66))
+//@   ensures[C17:boot-file-when-requested] (opt67 != nil && requested4(req.Options, 67)) ==> (has(resp.Options, 67) && resp.Options[67] == optenc(*opt67))
+//@   ensures[C17:nbp-only-when-requested] (opt67 == nil || !requested4(req.Options, 67)) ==> ((has(resp.Options, 67) <==> old(has(resp.Options, 67))) && resp.Options[67] == old(resp.Options[67]))
+//@   ensures[C17:nbp-only-when-requested] (opt67 == nil || opt66 == nil || !requested4(req.Options, 66)) ==> ((has(resp.Options, 66) <==> old(has(resp.Options, 66))) && resp.Options[66] == old(resp.Options[66]))
+//@   ensures[C17:other-options-untouched] forall k uint8: (k != 66 && k != 67) ==> ((has(resp.Options, k) <==> old(has(resp.Options, k))) && resp.Options[k] == old(resp.Options[k]))
+
+// DHCPv6: the boot-file URL (and parameters) are added once when the client's ORO asks for them
+//@ func nbpHandler6
+//@   implements handler.Handler6
+//@   modifies everything
+//@   loop 1: invariant resp6ok(resp) && opt59 != nil && code6(opt59) == 59 && (opt60 != nil ==> code6(opt60) == 60) && sent == old(sent) && *inner6(req) == old(*inner6(req))
+//@   loop 1: invariant resp.(*dhcpv6.Message).MessageType == old(resp.(*dhcpv6.Message).MessageType) && resp.(*dhcpv6.Message).TransactionID == old(resp.(*dhcpv6.Message).TransactionID)
+//@   loop 1: invariant forall k uint16: (k != 59 && k != 60) ==> (optn6(resp.(*dhcpv6.Message))[k] == old(optn6(resp.(*dhcpv6.Message))[k]) && optlast6(resp.(*dhcpv6.Message))[k] == old(optlast6(resp.(*dhcpv6.Message))[k]))
+//@   loop 1: invariant optn6(resp.(*dhcpv6.Message))[59] == old(optn6(resp.(*dhcpv6.Message))[59]) || (old(optn6(resp.(*dhcpv6.Message))[59]) == 0 && optn6(resp.(*dhcpv6.Message))[59] == 1)
+//@   ensures[C17:boot-url-at-most-once] (ret0 != nil) ==> (optn6(resp.(*dhcpv6.Message))[59] == old(optn6(resp.(*dhcpv6.Message))[59]) || (old(optn6(resp.(*dhcpv6.Message))[59]) == 0 && optn6(resp.(*dhcpv6.Message))[59] == 1))
+//@   ensures[C17:other-options-untouched] ret0 != nil ==> (forall k uint16: (k != 59 && k != 60) ==> (optn6(resp.(*dhcpv6.Message))[k] == old(optn6(resp.(*dhcpv6.Message))[k]) && optlast6(resp.(*dhcpv6.Message))[k] == old(optlast6(resp.(*dhcpv6.Message))[k])))
